@@ -250,7 +250,7 @@ FEATURE_ROOT = {
 def feature_entries(prop, monitor, pfx, kinds, feats):
     for f in feats:
         same, what = FEATURE_ROOT[f]
-        known("%s-F-%s" % (pfx, f.replace("\\", "").replace("+", "plus")), prop, r"(%s|process)" % monitor, None, kinds, r"(.* @ )?feature:" + f,
+        known("%s-F-%s" % (pfx, f.replace("\\", "").replace("+", "plus")), prop, r"(%s|process)" % monitor, None, kinds, r"(.* @ )?feature:" + f + r"( @ .*)?",
               "a value of a type with feature '%s' does not satisfy the property; root cause %s: %s" % (f.replace("\\", ""), same, what),
               "see " + same, "any other defect that only shows on types carrying this feature", "see " + same)
 RT = r"(encode-error|decode-error|not-equal:.+|panic:.+|fatal:.+|checkptr:.+|ill-formed-destination|excessive-allocation)"
@@ -278,6 +278,44 @@ known("KF-C16-03", "C16", "int-decode", None, r"accepts:(exponent|fraction|fract
 known("KF-C17-01", "C17", "str-encode", r"DisableNormalizeUTF8", r"raw-u2028/9", r"(value|key):.*u2028/9.*",
       'MarshalWithOption("\\u2028", DisableNormalizeUTF8()) emits the raw three bytes although HTML escaping is on', "internal/encoder/string.go: U+2028/9 are escaped by the UTF-8 normalising tables only",
       "nothing else (exact class)", "the option is documented as switching the whole normalising pass off")
+
+# ------------------------------------------------------------------ C02
+FEATURE_ROOT.update({
+ "unmarshaler-types": ("KF-C02-UNM", "Unmarshaler/TextUnmarshaler implementers accept documents of kinds for which encoding/json reports a type error (e.g. true into a TextUnmarshaler)"),
+ "ptr-to-container": ("KF-C02-PTRC", "pointers to slices/maps/arrays/bytes: null / reuse handling differs"),
+ "iface-nonempty": ("KF-C02-IFNE", "non-empty interface destinations"),
+ "recmap": ("KF-C01-PTR2", "RecMap contains **RecMap"),
+ "array0-or-1-plain": ("KF-C02-ARR01", "arrays of length 0/1 as destinations"),
+})
+DEC = r"(ok-vs-err|err-vs-ok|value:.+|ill-formed-destination|stream-differs-from-buffer|field-selection:.+)"
+feature_entries("C02", "dec-diff", "KF-C02", DEC, ["ptr2\\+", "array1-ptr-shaped-elem", "struct-ptr-shaped", "mapkey-marshaler", "embedded-conflicts", "embedded-structof",
+                "marshalerP-by-value", "nilable-marshalerV", "omitempty-marshaler", "ptr-to-marshaler", "string-opt-nonscalar", "string-opt-float-or-string", "name-collisions", "tags-zoo",
+                "unmarshaler-types", "ptr-to-container", "iface-nonempty", "recmap", "array0-or-1-plain", "array0-omitempty"])
+D = "dec-diff"
+known("KF-C02-01", "C02", D, None, r"err-vs-ok", r"go:syntax:strconv\.ParseFloat: parsing : invalid syntax @ doc:[a-z-]+(\+prepop)? @ .*",
+      'Unmarshal("null", &json.Number) fails with a ParseFloat error (encoding/json: no-op)', "internal/decoder/number.go: null yields an empty literal that is then validated with ParseFloat",
+      "other documents in which a null meets a json.Number destination", "small, but number.go shares the path with interface{}+UseNumber")
+known("KF-C02-02", "C02", D, None, r"err-vs-ok", r"go:syntax:strconv\.ParseFloat: parsing : value out of range @ doc:[a-z-]+(\+prepop)? @ .*",
+      'Unmarshal("1e400", &json.Number) fails (encoding/json keeps the literal)', "internal/decoder/number.go validates json.Number literals with strconv.ParseFloat and treats ErrRange as an error",
+      "other out-of-float64-range literals into json.Number / UseNumber", "see KF-C05-12")
+known("KF-C02-03", "C02", D, None, r"ok-vs-err", r"ref:type:number->float32 @ doc:[a-z-]+(\+prepop)? @ .*",
+      'Unmarshal("[1e39]", &[]float32) = nil, [+Inf] (encoding/json: UnmarshalTypeError)', "internal/decoder/float.go: ParseFloat(s, 64) then float32() conversion without range check",
+      "other literals beyond float32 accepted into float32", "candidate for a small fix (ParseFloat with bitSize 32)")
+known("KF-C02-04", "C02", D, r"Decoder.*", r"stream-differs-from-buffer", r"ok-vs-err:ref:type:number->u?int(8|16|32|64|ptr)? @ doc.* @ .*",
+      'NewDecoder("-327680e-1").Decode(&int) = nil (stores the digit prefix); Unmarshal reports the error', "see KF-C16-03 (stream position)", "see KF-C16-03", "see KF-C16-03")
+known("KF-C02-04b", "C02", D, r"Decoder.*", r"ok-vs-err", r"ref:type:number->u?int(8|16|32|64|ptr)? @ doc:[a-z-]+(\+prepop)? @ .*",
+      'NewDecoder("1.0").Decode(&uint8) = nil with UseNumber set as well', "see KF-C16-03 (stream position)", "see KF-C16-03", "see KF-C16-03")
+known("KF-C02-07b", "C02", D, r"Decoder.*", r"err-vs-ok", r"go:syntax:(json: invalid character u as escaped char|expected colon after object key) @ doc:[a-z-]+(\+prepop)? @ .*",
+      'same stream refill defect as KF-C02-07, seen under UseNumber where no buffer-mode equivalent exists to confirm it', "see KF-C04-STREAM / C09", "other stream syntax errors with exactly these two messages", "see C09")
+known("KF-C02-05", "C02", D, None, r"value:nil->non-nil", r"bytes.* @ doc:(.*\+prepop|dup-key)",
+      'Unmarshal("null", &b) with b = []byte("old") leaves b unchanged (encoding/json sets it to nil)', "internal/decoder/bytes.go: returns on null without clearing the destination",
+      "other nil-vs-non-nil differences on pre-populated []byte", "small; left as finding (behavioural)")
+known("KF-C02-06", "C02", D, None, r"field-selection:case-insensitive-match", r"(core|feature:.*)",
+      '{"C":-1} does not reach the field tagged `json:"c,omitempty"` of an embedded struct; {"B":1} into EmbDeep is not reported as a type error (encoding/json matches case-insensitively)', "internal/decoder/struct.go: case-insensitive lookup is missing for fields promoted from embedded structs (see C15)",
+      "any disagreement that disappears when keys are spelled exactly like their fields", "see C15")
+known("KF-C02-07", "C02", D, r"Decoder.*", r"stream-differs-from-buffer", r"(err-vs-ok:.*|value|ok-vs-err:.*) @ doc>500B.* @ .*",
+      'a >512-byte document with \\u00XX escapes decodes with Unmarshal but fails or differs with Decoder', "see KF-C04-STREAM / C09", "other stream-only disagreements on documents larger than the initial buffer", "see C09")
+
 
 json.dump({"comment": "generated by tools/gen_known.py; never written at check time", "findings": F},
           open(os.path.join(os.path.dirname(os.path.abspath(__file__)), "..", "known_findings.json"), "w"), indent=1, ensure_ascii=False)
